@@ -9,7 +9,7 @@ use amq_protocol::protocol::AMQPClass;
 
 pub struct C05;
 
-const KIND_NAMES: [&str; 7] = ["eof-at-offset", "reset-at-offset", "write-error-at-call", "corrupt-frame-end", "silence", "server-close", "client-exception"];
+const KIND_NAMES: [&str; 8] = ["eof-at-offset", "reset-at-offset", "write-error-at-call", "corrupt-frame-end", "silence", "server-close", "client-exception", "corrupt-frame-type"];
 
 struct Baseline {
     h_off: usize,
@@ -19,6 +19,7 @@ struct Baseline {
     t_open: u64,
     t_last_send: u64,
     frame_ends: Vec<usize>,
+    frame_starts: Vec<usize>,
     boundaries: Vec<usize>,
     ok: bool,
 }
@@ -59,10 +60,12 @@ fn baseline(seed: u64) -> Baseline {
     let (h_off, t_open) = h.unwrap_or((0, 0));
     let w_hs = n.writes.iter().filter(|w| w.time_ns <= t_open + 1_000_000).count() as u64;
     let mut frame_ends = Vec::new();
+    let mut frame_starts = Vec::new();
     let mut boundaries = Vec::new();
     for s in &world.broker.sent {
         if s.s2c_end > h_off {
             frame_ends.push(s.s2c_end - 1);
+            frame_starts.push(s.s2c_start);
             boundaries.push(s.s2c_start);
             boundaries.push(s.s2c_end);
         }
@@ -75,6 +78,7 @@ fn baseline(seed: u64) -> Baseline {
         t_open,
         t_last_send: world.broker.sent.last().map(|s| s.time_ns).unwrap_or(0),
         frame_ends,
+        frame_starts,
         boundaries,
         ok: open_ok && closed_ok && matches!(res.run.outcome, amiquip_simrt::Outcome::Finished) && h.is_some(),
     }
@@ -88,10 +92,10 @@ impl Scenario for C05 {
         "fault_enumeration"
     }
     fn rule(&self) -> String {
-        "For each seeded session (1-3 worker threads mid-RPC / mid-publish / blocked on consumer queues; a third of them with a 1 s heartbeat) a fault-free run records L = server->client bytes after the handshake and W = client write calls; then one run per (crash point, kind): EOF and connection reset at byte offsets of the server->client stream (quick: every frame boundary +-1 plus every 13th offset; thorough: every offset, every 3rd when more than 3000), write error at every write call after the handshake, a corrupted frame-end octet of every server frame, and - at sampled times - server silence (heartbeat sessions), a server Connection.Close(code,text) and an unimplemented-class method that triggers the client-exception path. Oracle: no hang (exact detector + 30 s blocked rule), no panic, every consumer queue drained to disconnection, every call invoked after the I/O thread exited fails, Connection::close returns the root cause allowed for the kind (EOF: UnexpectedSocketClose; reset: IoErrorReadingSocket|IoErrorWritingSocket; write error: IoErrorWritingSocket; corruption: MalformedFrame; silence: MissedServerHeartbeats; server close: ServerClosedConnection{code,text}; exception: ClientException), and when close returns the I/O thread has exited and the transport was dropped. Handshake-time failures belong to C16. Non-trivial = the fault really fired before the session's own end and at least one worker call was in flight or issued afterwards; distinct = (session seed, kind, point).".to_string()
+        "For each seeded session (1-3 worker threads mid-RPC / mid-publish / blocked on consumer queues; a third of them with a 1 s heartbeat) a fault-free run records L = server->client bytes after the handshake and W = client write calls; then one run per (crash point, kind): EOF and connection reset at byte offsets of the server->client stream (quick: every frame boundary +-1 plus every 13th offset; thorough: every offset, every 3rd when more than 3000), write error at every write call after the handshake, a corrupted frame-end octet and a corrupted frame-type octet of every server message, and - at sampled times - server silence (heartbeat sessions), a server Connection.Close(code,text) and an unimplemented-class method that triggers the client-exception path. Oracle: no hang (exact detector + 30 s blocked rule), no panic, every consumer queue drained to disconnection, every call invoked after the I/O thread exited fails, Connection::close returns the root cause allowed for the kind (EOF: UnexpectedSocketClose; reset: IoErrorReadingSocket|IoErrorWritingSocket; write error: IoErrorWritingSocket; corruption: MalformedFrame; silence: MissedServerHeartbeats; server close: ServerClosedConnection{code,text}; exception: ClientException), and when close returns the I/O thread has exited and the transport was dropped. Handshake-time failures belong to C16. Non-trivial = the fault really fired before the session's own end and at least one worker call was in flight or issued afterwards; distinct = (session seed, kind, point).".to_string()
     }
     fn plan(&self, thorough: bool, seed: u64) -> Vec<CaseSpec> {
-        let n_sessions = if thorough { 300 } else { 40 };
+        let n_sessions = if thorough { 600 } else { 120 };
         let seeds = seeds_for("C05", "crash", seed, n_sessions);
         let mut v = Vec::new();
         for s in seeds {
@@ -126,6 +130,9 @@ impl Scenario for C05 {
             }
             for e in &b.frame_ends {
                 v.push(CaseSpec { family: "crash".into(), seed: s, params: vec![3, *e as i64], choices: None });
+            }
+            for e in &b.frame_starts {
+                v.push(CaseSpec { family: "crash".into(), seed: s, params: vec![7, *e as i64], choices: None });
             }
             let n_times = if thorough { 12 } else { 4 };
             for i in 0..n_times {
@@ -162,7 +169,7 @@ impl Scenario for C05 {
         match kind {
             0 => life.gen.broker.s2c_cut = Some((point as usize, CutKind::Eof)),
             1 => life.gen.broker.s2c_cut = Some((point as usize, CutKind::Reset)),
-            3 => life.gen.broker.s2c_corrupt = Some(point as usize),
+            3 | 7 => life.gen.broker.s2c_corrupt = Some(point as usize),
             4 => {
                 if hb == 0 {
                     rep.inconclusive = Some("silence needs a heartbeat session".into());
@@ -186,13 +193,13 @@ impl Scenario for C05 {
             }
         });
         fill_common(&mut rep, &res, &world);
-        rep.sample = serde_json::json!({"session_seed": spec.seed, "kind": KIND_NAMES[kind as usize % 7], "point": point, "heartbeat": hb, "plan": plan_summary(&life.gen)});
-        rep.count(&format!("c05.kind.{}", KIND_NAMES[kind as usize % 7]), 1);
+        rep.sample = serde_json::json!({"session_seed": spec.seed, "kind": KIND_NAMES[kind as usize % 8], "point": point, "heartbeat": hb, "plan": plan_summary(&life.gen)});
+        rep.count(&format!("c05.kind.{}", KIND_NAMES[kind as usize % 8]), 1);
         for p in &res.run.panics {
-            rep.violate("panic", format!("{}@{}", p.thread, p.location), format!("{} {} at {}: {} panicked: {}", KIND_NAMES[kind as usize % 7], point, p.location, p.thread, p.message));
+            rep.violate("panic", format!("{}@{}", p.thread, p.location), format!("{} {} at {}: {} panicked: {}", KIND_NAMES[kind as usize % 8], point, p.location, p.thread, p.message));
         }
         if let Some((sig, detail)) = hang_sig(&res.run.outcome) {
-            rep.violate("hang", format!("{}:{}", KIND_NAMES[kind as usize % 7], sig), format!("{} at {}: the connection died (or should have) and somebody is never released: {}", KIND_NAMES[kind as usize % 7], point, detail));
+            rep.violate("hang", format!("{}:{}", KIND_NAMES[kind as usize % 8], sig), format!("{} at {}: the connection died (or should have) and somebody is never released: {}", KIND_NAMES[kind as usize % 8], point, detail));
             return rep;
         }
         if rep.inconclusive.is_some() {
@@ -217,7 +224,7 @@ impl Scenario for C05 {
             0 => n.stats.eof_injected > 0,
             1 => n.stats.rd_err_injected > 0,
             2 => n.stats.wr_err_injected > 0,
-            3 => world.broker.s2c.len() > point as usize,
+            3 | 7 => world.broker.s2c.len() > point as usize,
             4 => world.broker.silent,
             5 => world.broker.sent.iter().any(|s| matches!(s.kind, SentKind::ConnectionClose { .. })),
             _ => world.broker.sent.iter().any(|s| matches!(s.kind, SentKind::Raw)),
@@ -231,7 +238,7 @@ impl Scenario for C05 {
             0 => vec!["UnexpectedSocketClose".into()],
             1 => vec!["IoErrorReadingSocket".into(), "IoErrorWritingSocket".into()],
             2 => vec!["IoErrorWritingSocket".into()],
-            3 => vec!["MalformedFrame".into()],
+            3 | 7 => vec!["MalformedFrame".into()],
             4 => vec!["MissedServerHeartbeats".into()],
             5 => {
                 let mut v = vec![format!("ServerClosedConnection({},{})", code, ctext)];
@@ -249,7 +256,7 @@ impl Scenario for C05 {
             }
         };
         if fired && !allowed.contains(&got) {
-            rep.violate("close-result", format!("{}:{}", KIND_NAMES[kind as usize % 7], got.split('(').next().unwrap_or("")), format!("{} at {}: Connection::close returned {} ; allowed for this kind: {:?}", KIND_NAMES[kind as usize % 7], point, got, allowed));
+            rep.violate("close-result", format!("{}:{}", KIND_NAMES[kind as usize % 8], got.split('(').next().unwrap_or("")), format!("{} at {}: Connection::close returned {} ; allowed for this kind: {:?}", KIND_NAMES[kind as usize % 8], point, got, allowed));
             return rep;
         }
         if !fired && got != "Ok" {
@@ -273,14 +280,14 @@ impl Scenario for C05 {
         for o in &res.hist.ops {
             if let OpResult::Drained { disconnected, .. } = &o.result {
                 if !*disconnected {
-                    rep.violate("consumer-queue", "not-terminated", format!("{} at {}: a consumer queue did not terminate", KIND_NAMES[kind as usize % 7], point));
+                    rep.violate("consumer-queue", "not-terminated", format!("{} at {}: a consumer queue did not terminate", KIND_NAMES[kind as usize % 8], point));
                     return rep;
                 }
             }
             if o.invoke > io_exit && o.result != OpResult::Skipped && touches_channel(&o.op) {
                 after += 1;
                 if !matches!(o.result, OpResult::Err(_)) {
-                    rep.violate("call-after-death", "succeeded", format!("{} at {}: {} invoked at step {} after the I/O thread exited (step {}) returned {:?}", KIND_NAMES[kind as usize % 7], point, crate::expect::short_op(&o.op), o.invoke, io_exit, o.result));
+                    rep.violate("call-after-death", "succeeded", format!("{} at {}: {} invoked at step {} after the I/O thread exited (step {}) returned {:?}", KIND_NAMES[kind as usize % 8], point, crate::expect::short_op(&o.op), o.invoke, io_exit, o.result));
                     return rep;
                 }
             }
